@@ -24,10 +24,41 @@ fn plain_bytes(r: &ResourceRecord) -> Option<(Vec<u8>, Vec<u8>)> {
     Some((p.build_bytes_vec().ok()?, p.build_bytes_vec_compressed().ok()?))
 }
 
+/// `packet.into_owned()` if the library has such a method, whatever tree this is built against: an inherent method is
+/// preferred to a trait method of the same name, so the fallback below is only reached when there is none
+mod maybe_owned {
+    use simple_dns::Packet;
+    pub struct NoSuchMethod;
+    pub trait Fallback { fn into_owned(self) -> NoSuchMethod; }
+    impl<'a> Fallback for Packet<'a> { fn into_owned(self) -> NoSuchMethod { NoSuchMethod } }
+    pub trait AsPacket { fn as_packet(self) -> Option<Packet<'static>>; }
+    impl AsPacket for NoSuchMethod { fn as_packet(self) -> Option<Packet<'static>> { None } }
+    impl AsPacket for Packet<'static> { fn as_packet(self) -> Option<Packet<'static>> { Some(self) } }
+}
+
 pub fn c16(tier: &str, seed: u64) -> Vec<Case> {
     let thorough = tier == "thorough";
     let mut g = Gen::new(seed);
     let mut v = vec![];
+    // whole packets: a clone (and the owned copy, where the library offers one for packets) is the same message - header,
+    // EDNS data, every section - judged on the bytes both serialisers emit for it
+    {
+        #[allow(unused_imports)]
+        use maybe_owned::{AsPacket, Fallback};
+        let mut gp = Gen::new(seed ^ 0x9AC);
+        for k in 0..(if thorough { 2000 } else { 150 }) {
+            let p = gp.packet(if k % 3 == 0 { 1 } else { 3 });
+            let want = (p.build_bytes_vec().ok(), p.build_bytes_vec_compressed().ok());
+            let mut c = Case::oracle_only().tag("packet-copy");
+            let cl = p.clone();
+            if (cl.build_bytes_vec().ok(), cl.build_bytes_vec_compressed().ok()) != want || text::packet(&cl) != text::packet(&p) { c = c.fail("into-owned-eq", "the clone of a packet serialises to other bytes".into()); }
+            if let Some(o) = p.clone().into_owned().as_packet() {
+                c = c.tag("packet-into-owned");
+                if (o.build_bytes_vec().ok(), o.build_bytes_vec_compressed().ok()) != want || text::packet(&o) != text::packet(&p) { c = c.fail("into-owned-eq", format!("the owned copy of a packet is another message: {} / {}", text::packet(&p), text::packet(&o))); }
+            }
+            v.push(c);
+        }
+    }
     let reps = if thorough { 400 } else { 25 };
     for kind in 0..N_KINDS {
         for rep in 0..reps {
@@ -170,6 +201,47 @@ pub fn c16(tier: &str, seed: u64) -> Vec<Case> {
             if !(owned == orig) || text::rr(&owned) != text::rr(&orig) || h(&owned) != h(&orig) || h(&owned.rdata) != h(&orig.rdata) || plain_bytes(&owned) != plain_bytes(&orig) {
                 c = c.fail("into-owned-eq", format!("the owned copy of a received record ({}) is another value", rd_text));
             }
+            v.push(c);
+        }
+    }
+    // values that say the same thing in two ways (one wire form for two values; trailing zero octets in a bitmap that name
+    // no further type; an empty string against no string): whatever `==` says about a pair, hashing and set membership say
+    // the same, in both directions
+    {
+        let rec = |typ: u16, rd: &[u8]| -> Vec<u8> { let mut b = vec![1u8, b't', 0]; b.extend_from_slice(&typ.to_be_bytes()); b.extend_from_slice(&[0, 1, 0, 0, 0, 5]); b.extend_from_slice(&(rd.len() as u16).to_be_bytes()); b.extend_from_slice(rd); b };
+        let parsed = |typ: u16, rd: &[u8]| -> Option<ResourceRecord<'static>> { let b = rec(typ, rd); simple_dns::verif::parse_record_at(&b, 0).ok().map(|(r, _)| r.into_owned()) };
+        let mut groups: Vec<(&str, Vec<ResourceRecord<'static>>)> = vec![];
+        let mk = |rd: RData<'static>| ResourceRecord::new(Name::new_unchecked("t"), CLASS::IN, 5, rd);
+        let mut txts = vec![mk(RData::TXT(rdata::TXT::new())), mk(RData::TXT({ let mut t = rdata::TXT::new(); t.add_char_string(crate::gen::mk_cs(b"")); t }))];
+        txts.extend(parsed(16, &[0]));
+        txts.extend(parsed(16, &[0, 0]));
+        groups.push(("TXT without text", txts));
+        let mut nsecs = vec![];
+        for bm in [&[0u8, 2, 0x40, 0x01][..], &[0, 4, 0x40, 0x01, 0, 0], &[0, 3, 0x40, 0x01, 0], &[0, 2, 0x40, 0x01, 1, 1, 0], &[0, 2, 0x40, 0x01, 1, 0]] { let mut rd = vec![1u8, b'n', 0]; rd.extend_from_slice(bm); nsecs.extend(parsed(47, &rd)); }
+        nsecs.push(mk(RData::NSEC(rdata::NSEC { next_name: Name::new_unchecked("n"), type_bit_maps: vec![rdata::TypeBitMap { window_block: 0, bitmap: vec![0x40u8, 0x01].into() }] })));
+        nsecs.push(mk(RData::NSEC(rdata::NSEC { next_name: Name::new_unchecked("n"), type_bit_maps: vec![rdata::TypeBitMap { window_block: 0, bitmap: vec![0x40u8, 0x01, 0, 0, 0].into() }] })));
+        groups.push(("NSEC bitmaps with and without trailing zero octets", nsecs));
+        let mut wks = vec![];
+        for bm in [&[0x80u8][..], &[0x80, 0], &[0x80, 0, 0, 0], &[]] { let mut rd = vec![10u8, 0, 0, 1, 6]; rd.extend_from_slice(bm); wks.extend(parsed(11, &rd)); }
+        groups.push(("WKS bitmaps with and without trailing zero octets", wks));
+        let mut nulls = vec![];
+        nulls.extend(parsed(10, &[]));
+        nulls.extend(parsed(10, &[0]));
+        nulls.push(mk(RData::NULL(10, rdata::NULL::new(&[]).unwrap().into_owned())));
+        nulls.push(mk(RData::Empty(TYPE::NULL)));
+        groups.push(("NULL without data", nulls));
+        for (what, recs) in &groups {
+            let mut c = Case::oracle_only().tag("same-content-twins");
+            if recs.len() < 3 { c = c.fail("eq-hash", format!("{}: the encodings are not all accepted", what)); }
+            for a in recs { for b in recs {
+                let (eq, heq) = (a == b, h(a) == h(b));
+                let mut set = HashSet::new();
+                set.insert(a.clone());
+                if eq && !heq { c = c.fail("eq-hash", format!("{}: {:?} and {:?} compare equal but hash differently", what, a.rdata, b.rdata)); }
+                if eq != set.contains(b) { c = c.fail("hashset-lookup", format!("{}: {:?} looked up by {:?}", what, a.rdata, b.rdata)); }
+                if eq != (b == a) { c = c.fail("eq-hash", format!("{}: == is not symmetric", what)); }
+                if (a.rdata == b.rdata) != eq || (a.rdata == b.rdata && h(&a.rdata) != h(&b.rdata)) { c = c.fail("eq-hash", format!("{}: the RDATA alone compares or hashes otherwise than the records", what)); }
+            } }
             v.push(c);
         }
     }
